@@ -26,18 +26,37 @@ pub fn rule_hook(mt: &str, tag: &str, src: &mut Src) -> Option<(String, Vec<Comp
     let t = |s: String| Some((s, Vec::new()));
     let amt = |src: &mut Src, ccy: &str| -> String {
         let a = src.pick(AMT_POOL).to_string();
-        if ccy == "JPY" { format!("{},", a.split(',').next().unwrap()) } else { a }
+        if ccy == "JPY" {
+            format!("{},", a.split(',').next().unwrap())
+        } else {
+            a
+        }
     };
     match tag {
-        "23B" => t(pick_code(src, &["CRED", "CRED", "CRTS", "SPAY", "SPRI", "SSTD", "URGP", "HOLD"])),
+        "23B" => t(pick_code(
+            src,
+            &[
+                "CRED", "CRED", "CRTS", "SPAY", "SPRI", "SSTD", "URGP", "HOLD",
+            ],
+        )),
         "23E" => {
             let pool: &[&str] = match mt {
-                "103" => &["CHQB", "CORT", "HOLD", "INTC", "PHOB", "PHOI", "PHON", "REPA", "SDVA", "TELB", "TELE", "TELI", "ZZZZ", "URGP"],
-                "101" => &["CHQB", "CMSW", "CMTO", "CMZB", "CORT", "EQUI", "INTC", "NETS", "OTHR", "PHON", "REPA", "RTGS", "URGP", "ZZZZ", "HOLD"],
+                "103" => &[
+                    "CHQB", "CORT", "HOLD", "INTC", "PHOB", "PHOI", "PHON", "REPA", "SDVA", "TELB",
+                    "TELE", "TELI", "ZZZZ", "URGP",
+                ],
+                "101" => &[
+                    "CHQB", "CMSW", "CMTO", "CMZB", "CORT", "EQUI", "INTC", "NETS", "OTHR", "PHON",
+                    "REPA", "RTGS", "URGP", "ZZZZ", "HOLD",
+                ],
                 _ => &["AUTH", "NAUT", "OTHR", "RFDD", "RTND", "ZZZZ", "SDVA"],
             };
             let c = pick_code(src, pool);
-            if src.chance(1, 3) { t(format!("{c}/INFO")) } else { t(c) }
+            if src.chance(1, 3) {
+                t(format!("{c}/INFO"))
+            } else {
+                t(c)
+            }
         }
         "71A" => t(pick_code(src, &["OUR", "SHA", "BEN"])),
         "32A" | "32C" | "32D" => {
@@ -50,7 +69,9 @@ pub fn rule_hook(mt: &str, tag: &str, src: &mut Src) -> Option<(String, Vec<Comp
             let a = amt(src, &c);
             t(format!("{c}{a}"))
         }
-        "19" => t(src.pick(&["100,", "200,", "350,50", "1100,", "199,99", "450,50", "2,"]).to_string()),
+        "19" => t(src
+            .pick(&["100,", "200,", "350,50", "1100,", "199,99", "450,50", "2,"])
+            .to_string()),
         "34F" => {
             let c = pick_code(src, CCY_POOL);
             let a = amt(src, &c);
@@ -60,7 +81,13 @@ pub fn rule_hook(mt: &str, tag: &str, src: &mut Src) -> Option<(String, Vec<Comp
         "60F" | "60M" | "62F" | "62M" | "64" | "65" => {
             let c = pick_code(src, CCY_POOL);
             let a = amt(src, &c);
-            t(format!("{}{}{}{}", src.pick(&["C", "D"]), crate::spec::gen_date6(src), c, a))
+            t(format!(
+                "{}{}{}{}",
+                src.pick(&["C", "D"]),
+                crate::spec::gen_date6(src),
+                c,
+                a
+            ))
         }
         "90C" | "90D" => {
             let c = pick_code(src, CCY_POOL);
@@ -69,29 +96,63 @@ pub fn rule_hook(mt: &str, tag: &str, src: &mut Src) -> Option<(String, Vec<Comp
         }
         "72" => {
             if src.chance(1, 2) {
-                t(src.pick(&["/RTND/RETURN REASON", "/REJT/REJECT", "/RETN/99", "/ACC/INFORMATION", "PLAIN TEXT", "/COV/X"]).to_string())
+                t(src
+                    .pick(&[
+                        "/RTND/RETURN REASON",
+                        "/REJT/REJECT",
+                        "/RETN/99",
+                        "/ACC/INFORMATION",
+                        "PLAIN TEXT",
+                        "/COV/X",
+                    ])
+                    .to_string())
             } else {
                 None
             }
         }
-        "12" => t(src.pick(&["940", "941", "942", "950", "103", "999"]).to_string()),
+        "12" => t(src
+            .pick(&["940", "941", "942", "950", "103", "999"])
+            .to_string()),
         "28D" => t(src.pick(&["1/1", "1/2", "2/2", "00001/00001"]).to_string()),
         "79" => {
-            if src.chance(1, 2) { t(src.pick(&["/REJT/\nREASON", "NARRATIVE TEXT", ":20:COPY OF FIELDS", "LINE ONE\nLINE TWO"]).to_string()) } else { None }
+            if src.chance(1, 2) {
+                t(src
+                    .pick(&[
+                        "/REJT/\nREASON",
+                        "NARRATIVE TEXT",
+                        ":20:COPY OF FIELDS",
+                        "LINE ONE\nLINE TWO",
+                    ])
+                    .to_string())
+            } else {
+                None
+            }
         }
         _ => None,
     }
 }
 
 pub fn gen_rule_msg(mt: &str, src: &mut Src) -> GenMsg {
-    let o = crate::layout::GenOpts { star_max: 3, allow_cap: false };
+    let o = crate::layout::GenOpts {
+        star_max: 3,
+        allow_cap: false,
+    };
     gen_message(mt, src, &o, Some(&rule_hook))
 }
 
 /// as a MutCase (for C13, which only needs accepted messages with rule violations)
 pub fn gen_rule_case(mt: &str, src: &mut Src) -> MutCase {
     let m = gen_rule_msg(mt, src);
-    MutCase { mt: mt.to_string(), toks: toks_of(&m), mutation: "rule-relevant".into(), tag: String::new(), bad_content: false, crlf: src.chance(1, 5), wrapper: true, envelope: true }
+    MutCase {
+        mt: mt.to_string(),
+        toks: toks_of(&m),
+        mutation: "rule-relevant".into(),
+        tag: String::new(),
+        bad_content: false,
+        crlf: src.chance(1, 5),
+        wrapper: true,
+        envelope: true,
+    }
 }
 
 #[derive(Clone, Debug, Serialize, Deserialize)]
@@ -123,7 +184,12 @@ pub fn oracle(c: &RuleCase, obs: &mut Obs) -> Vec<Violation> {
     };
     // the parsed message must represent the text faithfully, otherwise a parser defect would be booked as a validation defect
     let (_, toks) = crate::refs::tokenize(&b.mt_string);
-    if toks.len() != c.msg.fields.len() || toks.iter().zip(c.msg.fields.iter()).any(|(a, f)| a.tag != f.tag) {
+    if toks.len() != c.msg.fields.len()
+        || toks
+            .iter()
+            .zip(c.msg.fields.iter())
+            .any(|(a, f)| a.tag != f.tag)
+    {
         obs.excluded("blocked-by-unfaithful-parse");
         return out;
     }
@@ -132,10 +198,23 @@ pub fn oracle(c: &RuleCase, obs: &mut Obs) -> Vec<Violation> {
     if !exp.must.is_empty() || !got.is_empty() {
         obs.nontrivial_str(&text);
     }
-    obs.sample(if exp.must.is_empty() { "rule-clean" } else { "rule-violating" }, || json!({"mt": mt, "text": text, "expected": exp.must, "reported": got}));
+    obs.sample(
+        if exp.must.is_empty() {
+            "rule-clean"
+        } else {
+            "rule-violating"
+        },
+        || json!({"mt": mt, "text": text, "expected": exp.must, "reported": got}),
+    );
     for code in exp.must.iter() {
         if !got.contains(code) {
-            out.push(viol(format!("C04|MT{mt}|{code}|missing"), format!("documented rule {code} is violated but not reported (reported: {:?}):\n{}", got, text)));
+            out.push(viol(
+                format!("C04|MT{mt}|{code}|missing"),
+                format!(
+                    "documented rule {code} is violated but not reported (reported: {:?}):\n{}",
+                    got, text
+                ),
+            ));
         }
     }
     for code in got.iter() {
@@ -151,7 +230,17 @@ pub fn run(ctx: &Ctx) {
     ctx.assume("reference rules transcribed from the doc comments above validate_* in /repo/src/messages and the SR2025 handbook; ambiguous cases are `undetermined` and not judged");
     ctx.assume("a message whose parse is not faithful (C01/C03 defect) is not judged here (counted as blocked)");
     let to_json = |c: &RuleCase| serde_json::to_value(c).unwrap();
-    ctx.run_generated("rules", MSGS.len(), ctx.n(3000, 80000), 1800, &|sh, src: &mut Src| RuleCase { msg: gen_rule_msg(mt_of_shard(sh), src) }, &oracle, &to_json);
+    ctx.run_generated(
+        "rules",
+        MSGS.len(),
+        ctx.n(3000, 80000),
+        1800,
+        &|sh, src: &mut Src| RuleCase {
+            msg: gen_rule_msg(mt_of_shard(sh), src),
+        },
+        &oracle,
+        &to_json,
+    );
 }
 
 pub fn replay(_ctx: &Ctx, _sub: &str, case: &Value) -> Vec<Violation> {
